@@ -41,7 +41,7 @@ Definition reporter (c : Z) (i : instr) : bool :=
   | IRcvGet r => r_call r =? c
   | IRcvChk r _ g =>
       (r_call r =? c) || match g with Some (it, _) => (it_call it =? c) && negb (it_tomb it) | None => false end
-  | IRcvEnq r _ => r_call r =? c
+  | IRcvEnq r _ _ => r_call r =? c
   | _ => false
   end.
 
@@ -243,7 +243,7 @@ Proof.
         apply andb_true_iff in Hr; destruct Hr as [Hr _]; apply Z.eqb_eq in Hr; exact Hr. }
     eapply ends_zero_item; [exact HI|exact Hin|congruence|exact Eo|exact Hnt].
   - (* IDelete *)
-    destruct (items_delete st t) as [st' g] eqn:E. destruct g as [[it [|]]|]; inversion H; subst st1 pushed; try contradiction.
+    destruct (items_delete_call st t lk) as [st' g] eqn:E. destruct g as [[it [|]]|]; inversion H; subst st1 pushed; try contradiction.
     in_cases Hj; cbn in Hr; rewrite ?andb_false_r in Hr; discriminate.
   - (* ITimerRun *)
     destruct (zlookup tm (timers st)) as [x|]; [|inversion H; subst st1 pushed; contradiction].
@@ -282,7 +282,7 @@ Proof.
     destruct g as [[it [|]]|]; inversion H; subst; split; assumption.
   - destruct (items_entomb cf st t) as [st' g] eqn:E. apply items_entomb_spec in E. destruct E as (_&A&B&_).
     destruct g as [[it [|]]|]; inversion H; subst; split; assumption.
-  - destruct (items_delete st t) as [st' g] eqn:E. apply items_delete_spec in E. destruct E as (_&_&A&B&_).
+  - destruct (items_delete_call st t lk) as [st' g] eqn:E. apply items_delete_call_spec in E. destruct E as (_&_&A&B&_).
     destruct g as [[it [|]]|]; inversion H; subst; split; assumption.
   - destruct (zlookup tm (timers st)) as [x|]; [|inversion H; split; reflexivity].
     destruct (tm_released x); inversion H; split; reflexivity.
